@@ -544,7 +544,8 @@ def run_case(ctx, i, rng):
                 {**desc, 'spec': spec})
         else:
             ctx.count('discard_construct_error')
-            ctx.count('discard_construct_error:' + type(exc).__name__)
+            ctx.count('discard_construct_error:' + type(exc).__name__
+                      + ':' + spec['form'])
         return
     rec = oracle_obj.recurrence
     raw = list(itertools.islice(iter(rec), M.HORIZON + 1))
